@@ -269,6 +269,54 @@ def check_shared(rep, proj, tier):
     rep.floor("shared-kinematics entries compared", n_cmp, 500)
 
 
+def _massless_job(kw):
+    """A target of mass exactly 0: xi = x, rho = 1, mu = 0 - the corrected operator is the uncorrected one."""
+    from .. import model
+
+    proj = model.project()
+    kw = dict(kw)
+    mode = kw.pop("tmc")
+    try:
+        plain = O.fold_op(proj, R.Cell(tmc=0, **kw))
+        corrected = O.fold_op(proj, R.Cell(tmc=mode, theory_overrides={"MP": 0}, **kw))
+    except O.FoldFailure as f:
+        return ("fold", f.outcome.status, f"{f.outcome.etype} {f.outcome.msg}"[:160])
+    bad = []
+    n = 0
+    for key in sorted(plain.keys() | corrected.keys()):
+        for p in plain.pids:
+            for j in range(R.GRID_N):
+                n += 1
+                if not O.same(plain.entry(key, p, j), corrected.entry(key, p, j)):
+                    bad.append((key, p, j, O.diff_text(corrected.entry(key, p, j), plain.entry(key, p, j))))
+    return ("cmp", n, bad[:2], len(bad))
+
+
+def check_massless(rep, proj, tier):
+    jobs_ = [dict(obs=obs, process="NC", projectile="electron", fns="ZM-VFNS", nfff=4, nf=4, pto=1, tmc=mode, ren_sv=False, fact_sv=False)
+             for obs, mode in itertools.product(["F2_total", "FL_total", "F3_total"], [1, 2, 3])]
+    outs = sweep.run_cells(_massless_job, jobs_)
+    n_cmp = 0
+    for kw, o in zip(jobs_, outs):
+        label = f"{kw['obs']}|{kw['fns']}|TMC={kw['tmc']}|MP=0"
+        if o[0] == "fold":
+            if o[1] == "rejected":
+                rep.ok("C10.massless", "", label, f"configuration explicitly rejected ({o[2][:50]})")
+            else:
+                rep.undecided("C10.massless", "", label, f"not foldable ({o[1]}): {o[2]}")
+            continue
+        _, n, bad, nbad = o
+        n_cmp += n
+        if nbad:
+            key, p, j, txt = bad[0]
+            rep.bad("C10.massless", "src/yadism/esf/tmc.py", label,
+                    f"{nbad} of {n} entries of the operator corrected for a target of mass 0 differ from the uncorrected operator (the correction must vanish with "
+                    f"the mass: the card's MP = 0 is not what reaches the correction), e.g. order {key} pid {p} node {j}: {txt[:300]}", key=label)
+        else:
+            rep.ok("C10.massless", "", label, f"{n} entries identical to the uncorrected operator")
+    rep.floor("massless-target entries compared", n_cmp, 300)
+
+
 def check_vars_and_limits(rep, proj):
     """xi, rho, mu as folded from the TMC constructor == published definitions; integral coefficients carry mu;
     the F(xi) coefficient -> 1 and xi -> x as mu -> 0."""
@@ -338,6 +386,7 @@ def run(rep, proj, tier):
     state.check(rep, proj, "C10.state", module_filter=lambda m: m.name in ('yadism.esf.tmc', 'yadism.sf', 'yadism.esf.conv'), floor=1)
     check_vars_and_limits(rep, proj)
     check_shared(rep, proj, tier)
+    check_massless(rep, proj, tier)
     js = jobs(tier)
     outs = sweep.run_cells(_job, js)
     n_entries = 0
